@@ -96,9 +96,6 @@ theorem grows_joinAndLeave_step (states : Json) (name : Str) (state data ctx : J
     | exact (grows_same _ _ rfl rfl).trans (ih.handleErr _ _ _ _ _ _ _ _ _)
     | split)
 
-theorem grows_pair_trans {α : Type} {st : St} {p : α × St} (h : Grows st p.2) {q : St} (h2 : Grows p.2 q) :
-    Grows st q := h.trans h2
-
 set_option hygiene false in
 local macro "grow_step" : tactic => `(tactic|
   repeat' (first
